@@ -49,8 +49,18 @@ def run_export(lane, spec, ex, out, probes=None, argv_extra=None, keylog="__ex__
     """one run of the real TLExport on the expanded world"""
     kl = ex["keylog"] if keylog == "__ex__" else keylog
     argv = list(ex["argv"]) + list(argv_extra or [])
+    cover = (spec.get("seed", 1) % 40 == 0) and not getattr(out, "_covered", False)
+    if cover:
+        probes = list(probes or []) + ["cover"]
+        out._covered = True
     res = lane.sut(spec.get("hashseed", 0)).run(ex["capture"], kl, argv, probes=probes, **kw)[0]
     out.exports += 1
+    if cover and res.probes:
+        for p in res.probes:
+            if p[0] == "cover":
+                for ln in p[1]:
+                    out.add("tlexport_lines", ln)
+        res.probes = [p for p in res.probes if p[0] != "cover"]
     return res
 
 
